@@ -152,6 +152,7 @@ pub fn make_alphabet(r: &mut SimRng, tick: u32, kind: u8) -> Vec<u32> {
     let max_k = (PMAX as u64 - 1) / t; // highest multiple of tick strictly below 2^32-1
     let n = match kind {
         0 => 3,
+        3 => 26, // deep: enough adjacent levels to populate every published level (up to 24)
         _ => 8,
     };
     let lo_k = match r.below(10) {
